@@ -8,4 +8,5 @@ Extraction "model_types2.ml"
   TypesMore.bits_store TypesMore.bits_canon TypesMore.bits_compare TypesMore.bits_sort TypesMore.bits_size TypesMore.le_bytes
   TypesMore.binary_store TypesMore.binary_canon TypesMore.binary_compare TypesMore.binary_sort TypesMore.b64_encode
   TypesMore.str_store TypesMore.str_compare TypesMore.str_sort TypesMore.utf8len
-  TypesMore.union_store TypesMore.union_canon TypesMore.union_compare TypesMore.union_sort.
+  TypesMore.union_store TypesMore.union_canon TypesMore.union_compare TypesMore.union_sort
+  TypesMore.ip4p_store TypesMore.ip4p_compare.
